@@ -13,8 +13,8 @@ from ..core import Run
 from ..pool import run_ops
 from ..tlc import read_export, run_tlc, validate_traces
 
-ALL = set(range(1, 56))
-XSH = {1, 4, 13, 17, 18, 20, 23, 25, 26, 27, 28, 29, 30, 39, 40, 45, 46, 47, 48, 49, 50, 52, 53}
+ALL = set(range(1, 61))
+XSH = {1, 4, 13, 17, 18, 20, 23, 25, 26, 27, 28, 29, 30, 39, 40, 45, 46, 47, 48, 49, 50, 52, 53, 56, 58}
 TIERS = {"quick": [(ALL, 2), (XSH, 3)], "thorough": [(ALL, 3), (XSH, 4)]}
 
 
@@ -36,7 +36,7 @@ def generate(run: Run, tier: str) -> list[dict]:
 
 def cases_for_c04(run: Run, tier: str) -> list[dict]:
     cs = generate(run, "quick")
-    return [{"src": "".join(c["parts"]), "mode": "exec", "origin": "c14"} for c in cs[:: (11 if tier == "quick" else 1)]]
+    return [{"src": "".join(c["parts"]), "mode": "exec", "origin": "c14"} for c in cs if tier != "quick" or len(c["kinds"]) <= 2]
 
 
 def check(run: Run) -> None:
